@@ -74,6 +74,7 @@ func h10Call(s Screen, k int, sym bool) {
 		s.UnregisterRuneFallback(r)
 	case "CanDisplay":
 		s.CanDisplay(r, true)
+		s.CanDisplay(0xe9, true) // not encodable in the US-ASCII locale the harness selects: consults the fallback table
 	case "HasMouse":
 		s.HasMouse()
 	case "HasKey":
@@ -108,6 +109,7 @@ func h10Call(s Screen, k int, sym bool) {
 
 // H10_lockset: every Screen method, symbolic arguments, lock-set tracking on.
 func H10_lockset() {
+	vsymSetenv("LC_ALL", "C") // US-ASCII locale: unencodable runes reach the ACS and fallback tables
 	e := h01New("xterm-256color", 3, 2, false)
 	e.s.SetContent(0, 0, 'a', nil, StyleDefault)
 	e.s.Show()
@@ -124,20 +126,24 @@ func H10_lockset() {
 // goroutines) under `go test -race`.
 func H10_race_replay() {
 	a, b := vsymParam("a", 0), vsymParam("b", 0)
-	e := h01New("xterm-256color", 3, 2, false)
-	e.s.SetContent(0, 0, 'a', nil, StyleDefault)
-	e.s.Show()
-	var wg sync.WaitGroup
-	for _, k := range []int{a, b} {
-		k := k
-		wg.Add(1)
-		go func() {
-			defer wg.Done()
-			for i := 0; i < 200; i++ {
-				h10Call(e.s, k, false)
-			}
-		}()
+	vsymSetenv("LC_ALL", "C")
+	// several fresh screens: one-shot methods (Fini, Suspend) get one racing window per trial
+	for trial := 0; trial < 40; trial++ {
+		e := h01New("xterm-256color", 3, 2, false)
+		e.s.SetContent(0, 0, 'a', nil, StyleDefault)
+		e.s.Show()
+		var wg sync.WaitGroup
+		for _, k := range []int{a, b} {
+			k := k
+			wg.Add(1)
+			go func() {
+				defer wg.Done()
+				for i := 0; i < 30; i++ {
+					h10Call(e.s, k, false)
+				}
+			}()
+		}
+		wg.Wait()
+		e.s.Fini()
 	}
-	wg.Wait()
-	e.s.Fini()
 }
